@@ -25,6 +25,10 @@ type mut struct {
 
 func main() {
 	enc := json.NewEncoder(os.Stdout)
+	if len(os.Args) > 1 && os.Args[1] == "-benign" {
+		benign(enc, os.Args[2:])
+		return
+	}
 	for _, path := range os.Args[1:] {
 		src, err := os.ReadFile(path)
 		if err != nil {
